@@ -195,6 +195,33 @@ for _c in CHECKS:
     if _c["id"] in EXTRA2:
         _c["text"] = _c["text"] + " " + EXTRA2[_c["id"]]
 
+# families added after the fifth and sixth waves (DESIGN 10.15, 10.16)
+EXTRA3 = {
+    "C01": "Stacks given as tuples and iterators.",
+    "C02": "The default stack must give the same block shapes; entry types that resemble, contain or begin with a keyword (@Commentary, @stringent); field names of one entry differing only in case; at-sign + word + line break + brace inside values.",
+    "C03": "Field lines also for entries that went through middleware (paired by position).",
+    "C04": "Entry types with digits, underscore, non-ASCII letters after a truncated block.",
+    "C05": "The round trip is judged even if the first parse reports a failed block.",
+    "C06": "Columns and field keys up to 1000 characters; an empty field key as the longest key.",
+    "C07": "transform_block called directly; every pool configuration built by position; the stack factories in copy mode stage by stage; the same library object handed to a long-lived instance twice with an in-place edit in between.",
+    "C08": "Failed blocks made by the caller handed to add / replace; replace with the flag left out / by position / by keyword; user subclasses of Entry and String colliding with plain blocks.",
+    "C09": "Every view read between the two parts of a document; field names differing only in case are not repeats.",
+    "C10": "Construction by position; values with an at-sign before white space and a brace.",
+    "C11": "@string without content; a document parsed in two parts; a definition that breaks off.",
+    "C12": "str-subclass values; results edited by the caller before the same text is split again.",
+    "C13": "A 10-token alphabet of Unicode case classes (letters without case, cased non-letters, title case, special characters without cased letters) to length 5 / 6.",
+    "C14": "Names whose deciding word is a letter without case / a cased non-letter; CR and CRLF separators; NameParts built by position and its copies.",
+    "C15": "Values of str / int subclasses and IntEnum; digit strings behind 3..20000 zeros.",
+    "C16": "User subclasses of the comment classes and of Entry; the same library sorted again after an in-place edit.",
+    "C17": "One configuration in several spellings (by position, order as list, str-subclass keys; a non-bool flag must behave as ONE of the bool configurations); fields keep their source line; sharp-s orders.",
+    "C18": "Blocks carrying the notes of earlier stages (removed enclosings, resolved references) are converted like fresh ones.",
+    "C19": "Assigning a value equal to the stored one (True over 1, a str-subclass instance, an equal Field) stores the new object.",
+    "C20": "Hook dispatch of user block middlewares decided by the class alone (same-named classes, subclasses of shipped middlewares); library-level results that are falsy; any Collection of blocks and blocks that are themselves sized and iterable.",
+}
+for _c in CHECKS:
+    if _c["id"] in EXTRA3:
+        _c["text"] = _c["text"] + " " + EXTRA3[_c["id"]]
+
 CHECKS.sort(key=lambda c: c["id"])
 
 _claimed = {c["id"] for c in CHECKS}
